@@ -16,13 +16,20 @@
 EXTENDS Processor, Json, TLC, FiniteSets
 
 VARIABLES l, mfiles, mcur, cfiles, ccur,
-          nStarts, nBad, nConn          \* predicted: motion recordings started, bad frames, connections (this daemon run)
+          nStarts, nBad, nConn,         \* predicted: motion recordings started, bad frames, connections (this daemon run)
+          thr                           \* the throttle between processor and motion files (handleConn wires one per
+                                        \* connection): [on, min = (min-secs+preview-secs)*fps, tok, rec]; its refill is
+                                        \* not modelled here - the runs that switch it on use a refill period (24 h) that
+                                        \* cannot earn a frame within the run (Throttle.tla has the clock)
 
 Trace == ndJsonDeserialize("trace.ndjson")
 T == Trace[l]
-svars == <<pvars, l, mfiles, mcur, cfiles, ccur, nStarts, nBad, nConn>>
+svars == <<pvars, l, mfiles, mcur, cfiles, ccur, nStarts, nBad, nConn, thr>>
+ThrOff == [on |-> FALSE, min |-> 0, cap |-> 0, tok |-> 0, rec |-> FALSE]
+RECURSIVE SumLen(_, _)
+SumLen(fs, k) == IF k = 0 THEN 0 ELSE Len(fs[k]) + SumLen(fs, k - 1)      \* frames in the first k files
 
-TInit == /\ l = 1 /\ mfiles = <<>> /\ mcur = <<>> /\ cfiles = <<>> /\ ccur = <<>> /\ nStarts = 0 /\ nBad = 0 /\ nConn = 0
+TInit == /\ l = 1 /\ mfiles = <<>> /\ mcur = <<>> /\ cfiles = <<>> /\ ccur = <<>> /\ nStarts = 0 /\ nBad = 0 /\ nConn = 0 /\ thr = ThrOff
          /\ N = 1 /\ TrigF = 0 /\ MinF = 0 /\ MaxF = 0 /\ ConstOn = FALSE /\ InitState
 
 (* fold the calls of one step into the predicted files *)
@@ -30,17 +37,28 @@ RECURSIVE Collect(_, _)
 Collect(st, cs) ==
   IF cs = <<>> THEN st ELSE
   LET c == Head(cs)
-      st1 == CASE c.s = "m" /\ c.op = "start" -> [st EXCEPT !.mcur = <<>>]
-               [] c.s = "m" /\ c.op = "w"     -> [st EXCEPT !.mcur = Append(@, c.id)]
-               [] c.s = "m" /\ c.op = "stop"  -> [st EXCEPT !.mfiles = Append(@, st.mcur), !.mcur = <<>>]
+      t == st.thr
+      \* ThrottledRecorder (throttle/throttled_recorder.go) without refill: StartRecording / WriteFrame / StopRecording
+      canStart == t.tok >= t.min
+      st1 == CASE c.s = "m" /\ c.op = "start" /\ ~t.on -> [st EXCEPT !.mcur = <<>>, !.nst = @ + 1]
+               [] c.s = "m" /\ c.op = "w" /\ ~t.on     -> [st EXCEPT !.mcur = Append(@, c.id)]
+               [] c.s = "m" /\ c.op = "stop" /\ ~t.on  -> [st EXCEPT !.mfiles = Append(@, st.mcur), !.mcur = <<>>]
+               [] c.s = "m" /\ c.op = "start" /\ t.on  -> IF canStart THEN [st EXCEPT !.mcur = <<>>, !.thr.rec = TRUE, !.nst = @ + 1] ELSE st
+               [] c.s = "m" /\ c.op = "w" /\ t.on      ->
+                    IF ~t.rec /\ ~canStart THEN st                           \* suppressed
+                    ELSE LET cur0 == IF t.rec THEN st.mcur ELSE <<>> IN        \* (re)started in the middle of a trigger
+                         LET n1 == IF t.rec THEN st.nst ELSE st.nst + 1 IN
+                         IF t.tok > 0 THEN [st EXCEPT !.mcur = Append(cur0, c.id), !.thr.tok = @ - 1, !.thr.rec = TRUE, !.nst = n1]
+                         ELSE [st EXCEPT !.mfiles = Append(@, cur0), !.mcur = <<>>, !.thr.rec = FALSE, !.nst = n1]   \* cut
+               [] c.s = "m" /\ c.op = "stop" /\ t.on   -> IF t.rec THEN [st EXCEPT !.mfiles = Append(@, st.mcur), !.mcur = <<>>, !.thr.rec = FALSE] ELSE st
                [] c.s = "c" /\ c.op = "start" -> [st EXCEPT !.ccur = <<>>]
                [] c.s = "c" /\ c.op = "w"     -> [st EXCEPT !.ccur = Append(@, c.id)]
                [] c.s = "c" /\ c.op = "stop"  -> (IF st.ccur = <<>> THEN st ELSE [st EXCEPT !.cfiles = Append(@, st.ccur), !.ccur = <<>>])
                [] OTHER -> st
   IN Collect(st1, Tail(cs))
-Upd == /\ \E st \in {Collect([mfiles |-> mfiles, mcur |-> mcur, cfiles |-> cfiles, ccur |-> ccur], out')} :
-            mfiles' = st.mfiles /\ mcur' = st.mcur /\ cfiles' = st.cfiles /\ ccur' = st.ccur
-       /\ nStarts' = nStarts + Cardinality({i \in DOMAIN out' : out'[i].s = "m" /\ out'[i].op = "start"})
+Upd == /\ \E st \in {Collect([mfiles |-> mfiles, mcur |-> mcur, cfiles |-> cfiles, ccur |-> ccur, thr |-> thr, nst |-> nStarts], out')} :
+            mfiles' = st.mfiles /\ mcur' = st.mcur /\ cfiles' = st.cfiles /\ ccur' = st.ccur /\ thr' = st.thr
+            /\ nStarts' = st.nst         \* recordings started at the storage layer (what brackets automatic FFC)
        /\ UNCHANGED nConn
 
 AllOk(mo) == [motion |-> mo, win |-> TRUE, disk |-> TRUE, mStart |-> TRUE, mPre |-> 0, mW |-> TRUE, mStop |-> TRUE,
@@ -56,13 +74,14 @@ TConn == /\ T.ev = "conn"          \* a new camera connection: new processor, se
          /\ cfiles' = (IF T.newrun THEN <<>> ELSE cfiles)
          /\ nStarts' = (IF T.newrun THEN 0 ELSE nStarts) /\ nBad' = (IF T.newrun THEN 0 ELSE nBad)
          /\ nConn' = (IF T.newrun THEN 1 ELSE nConn + 1)
+         /\ thr' = (IF "ThrCap" \in DOMAIN T THEN [on |-> TRUE, min |-> T.ThrMin, cap |-> T.ThrCap, tok |-> T.ThrCap, rec |-> FALSE] ELSE ThrOff)
 TFrame == T.ev = "frame" /\ Frame(AllOk(T.motion)) /\ fid' = T.id /\ Upd /\ UNCHANGED nBad
 TClear == T.ev = "clear" /\ Reset(TRUE) /\ Upd /\ UNCHANGED nBad
 TBad   == T.ev = "bad" /\ BadFrame(TRUE, TRUE) /\ Upd /\ nBad' = nBad + 1
 (* what the daemon told the other services over the system bus (fake bus): automatic FFC is switched on at every  *)
 (* connection and off / on around every motion recording; each bad frame is reported as a 'bad-thermal-frame'      *)
 (* event and answered with a camera restart request                                                              *)
-TBus == /\ T.ev = "bus" /\ UNCHANGED <<pvars, mfiles, mcur, cfiles, ccur, nStarts, nBad, nConn>>
+TBus == /\ T.ev = "bus" /\ UNCHANGED <<pvars, mfiles, mcur, cfiles, ccur, nStarts, nBad, nConn, thr>>
         /\ LET offs == Cardinality({i \in DOMAIN T.ffc : ~T.ffc[i]})
                ons  == Cardinality({i \in DOMAIN T.ffc : T.ffc[i]})
                v == (IF T.restarts # nBad THEN {"SYS:camera-restart-requests"} ELSE {})
@@ -76,7 +95,7 @@ TBus == /\ T.ev = "bus" /\ UNCHANGED <<pvars, mfiles, mcur, cfiles, ccur, nStart
 (* motion files.                                                                                                *)
 Consec(f) == \A i \in 1..(Len(f) - 1) : f[i + 1] = f[i] + 1
 TFiles == /\ T.ev = "files" /\ UNCHANGED <<pvars, mfiles, mcur, cfiles, ccur>>
-          /\ UNCHANGED <<nStarts, nBad, nConn>>
+          /\ UNCHANGED <<nStarts, nBad, nConn, thr>>
           /\ LET ntest == IF "ntest" \in DOMAIN T THEN T.ntest ELSE 0
                  inPred(f) == \E i \in DOMAIN mfiles : mfiles[i] = f
                  inObs(f) == \E i \in DOMAIN T.motion : T.motion[i] = f
@@ -87,6 +106,12 @@ TFiles == /\ T.ev = "files" /\ UNCHANGED <<pvars, mfiles, mcur, cfiles, ccur>>
                       \cup (IF ntest > 0 /\ (Len(extra) # ntest \/ \E i \in DOMAIN extra : Len(extra[i]) # SnapLen + 1 \/ ~Consec(extra[i]))
                             THEN {"SYS:test-recording-files-wrong"} ELSE {})
                       \cup (IF T.constant # cfiles THEN {"SYS:continuous-files-differ"} ELSE {})
+                      \* throttle on, one connection, no refill within the run - directly on the files, no prediction needed:
+                      \* C05 the frames stored never exceed the bucket; C06 every file was started with at least one
+                      \* minimum-length recording of budget left
+                      \cup (IF thr.on /\ nConn = 1 /\ SumLen(T.motion, Len(T.motion)) > thr.cap THEN {"SYS:thr-budget-exceeded"} ELSE {})
+                      \cup (IF thr.on /\ nConn = 1 /\ (\E k \in DOMAIN T.motion : SumLen(T.motion, k - 1) + thr.min > thr.cap)
+                            THEN {"SYS:thr-start-without-full-clip"} ELSE {})
              IN IF v = {} THEN TRUE ELSE PrintT(<<"VIOL", l, v, mfiles, cfiles>>)
 TNext == l <= Len(Trace) /\ l' = l + 1 /\ (TConn \/ TFrame \/ TClear \/ TBad \/ TFiles \/ TBus)
 Consumed == TLCGet("stats").diameter - 1 = Len(Trace)
